@@ -8,9 +8,10 @@ import DitModel.Drv.Info
 import DitModel.Drv.Constr
 import DitModel.Drv.Diverge
 import DitModel.Drv.Pid
+import DitModel.Drv.Channel
 open Dit Dit.Drv
 
-def handlers : List (String × (J → Option J)) := basicHandlers ++ simplexHandlers ++ infoHandlers ++ opsHandlers ++ constrHandlers ++ divergeHandlers ++ pidHandlers
+def handlers : List (String × (J → Option J)) := basicHandlers ++ simplexHandlers ++ infoHandlers ++ opsHandlers ++ constrHandlers ++ divergeHandlers ++ pidHandlers ++ channelHandlers
 
 def answer (line : String) : String :=
   let line := line.trimAscii.toString
